@@ -3,8 +3,10 @@ use serde_json::Value;
 
 pub type AreaFn = fn(&Value) -> Vec<Value>;
 
+mod c15rt;
 pub mod co;
 mod conc;
+mod mon;
 pub mod sched;
 pub mod pool;
 mod joinh;
@@ -24,6 +26,8 @@ mod trap;
 pub fn lookup(name: &str) -> Option<AreaFn> {
     match name {
         "time" => Some(time::run),
+        "c15rt" => Some(c15rt::run),
+        "mon" => Some(mon::run),
         "ows" => Some(ows::run),
         "pws" => Some(pws::run),
         "co" => Some(co::run),
